@@ -19,6 +19,7 @@
 #include <sys/wait.h>
 #include <unistd.h>
 #include <csignal>
+#include <cerrno>
 #include <cstring>
 #include "simfs.h"
 #include "simrandom.h"
@@ -157,6 +158,7 @@ const Canon & canonical(const GenCfg & cfg, const Op & shoot)
     rs.begin_op(shot_budget(g));
     set_steers(rs, shoot, 5);
     bxdecay0::event ev;
+    errno = 0;
     g.shoot(rs, ev);
     c.shot_ok = true;
     c.ev = EventRec::of(ev);
@@ -435,6 +437,9 @@ Outcome run_gen(const Plan & plan, const RunCtx & ctx)
       r.cancel_at = op.arg(3, -1);
       set_steers(r, op, 5);
       std::string err; bool afired = false;
+      // ambient thread state on entry: errno holds whatever the caller's last failed call left there (decided by the plan);
+      // the reference is computed with errno == 0
+      { static const int AMBIENT[4] = {0, EDOM, ERANGE, EINTR}; errno = AMBIENT[(size_t)(hmix((u64)op.arg(1), oi) % 4)]; if (errno) out.ctr["fault_ambient_errno_set_before_shot"]++; }
       bool ok = sut_call(op.arg(4, -1), [&] { I.gen->shoot(r, ev); }, err, afired);
       if (afired) out.ctr["fault_alloc_fail_fired"]++;
       bool faulted = r.cancelled || afired;
